@@ -471,7 +471,8 @@ type Gen struct {
 	depth    int
 }
 
-var genClassNames = []string{"Foo", "Bar", "Baz", "Qux", "Node", "Item", "User", "Acct"}
+// (some names differ only in case, or collide with configured classes once a namespace is dropped)
+var genClassNames = []string{"Foo", "Bar", "Baz", "Qux", "Node", "Item", "User", "Acct", "Json", "JSON", "Http", "HTTP", "Io", "IO"}
 var genMethodNames = []string{"run", "call", "name", "value", "size", "build", "each_item", "to_s", "calc", "test", "x", "y"}
 var genVarNames = []string{"a", "b", "c", "x", "y", "n", "s", "arr", "h", "obj", "res", "tmp"}
 
@@ -632,6 +633,10 @@ func (g *Gen) expr() string {
 	case 12:
 		return "!" + g.atom()
 	}
+	if g.r.Chance(1, 14) {
+		// constants and namespaces that may or may not exist
+		return g.r.Pick([]string{"Js::X", "Nope::Thing", "Json", "JSON", "HTTP::Get", "Foo::Bar", "::Object", "Math::PI", "Unknown"})
+	}
 	if g.r.Chance(1, 6) && len(g.vars) > 0 {
 		// an assignment is an expression too: (a = {x: 1}) as a value re-types a variable in the
 		// middle of the statement that uses it
@@ -713,6 +718,16 @@ func (g *Gen) stmt() {
 	case 5:
 		g.line("# " + g.r.Pick([]string{"comment", "ti-doc: documented", "ti-for-llm: note", "TODO \"quote", ""}))
 	case 6:
+		if len(g.vars) > 0 && g.r.Chance(1, 4) {
+			// a local and the instance variable of the same name, narrowed by one condition
+			v := strings.TrimPrefix(g.r.Pick(g.vars), "@")
+			g.line(g.r.Pick([]string{"if ", "unless "}) + v + g.r.Pick([]string{".nil?", ".is_a?(Integer)", ""}) + g.r.Pick([]string{" && ", " || "}) + "@" + v + g.r.Pick([]string{".nil?", ".is_a?(String)", ""}))
+			g.block(1)
+			g.line("else")
+			g.line("  p " + v + " + 1, @" + v)
+			g.line("end")
+			return
+		}
 		g.line(g.r.Pick([]string{"if ", "unless "}) + g.expr())
 		g.block(1 + g.r.Intn(2))
 		if g.r.Chance(1, 2) {
